@@ -68,6 +68,7 @@ where
             max_load = new_max_load;
             partition[i] = q;
             i_last = i;
+            break;
         }
 
         algo_iterations += 1;
